@@ -140,7 +140,7 @@ def validate(run, scratch):
     tf = scratch / "trace_events.json"
     tf.write_text(json.dumps(events))
     emit = scratch / "trace_verdicts.ndjson"
-    res = run_tlc("TreeOpsTrace", "MC_TreeOpsTrace.cfg", scratch, workers=16, env={"TRACE_FILE": tf, "EMIT_FILE": emit}, timeout=900)
+    res = run_tlc("TreeOpsTrace", "MC_TreeOps_trace.cfg", scratch, workers=16, env={"TRACE_FILE": tf, "EMIT_FILE": emit}, timeout=900)
     run.add_tlc(res)
     verdicts = {v["i"]: v for v in read_emitted(emit)}
     if len(verdicts) != len(events):
